@@ -448,7 +448,7 @@ func TestC03(t *testing.T) {
 	ck := hx.Check[c03Case]{
 		Property: "C03", Part: "programs",
 		Rule:  "rapid-generated rule programs (all 7 types, 4 MATCH forms, keyword case variants, malformed rules) over nested artifact paths with same-named artifacts inside and outside prefixes, 1-2 hash algorithms, present/absent destination links, steps and inspections, both wrappers; non-trivial = removing one non-ALLOW rule changes the reference verdict; distinct by case JSON",
-		Cases: hx.Pick(6000, 600000),
+		Cases: hx.Pick(6000, 3000000),
 		Gen:   c03Gen, Run: c03Run,
 	}
 	if hx.ReplayRequested() == "" {
